@@ -386,7 +386,7 @@ impl UpdateFundingStateX {
 //@ sub for \(is_long, is_long_collateral\) in MATRIX \{ => let ghost m1 = self.market; let mut _k12: usize = 0; while _k12 < 4 { let (is_long, is_long_collateral) = MATRIX[_k12]; let ghost m2 = self.market; _k12 += 1;
 //@ loop 1: invariant _k12 <= 4, walked_all(m1, self.market, report, MATRIX@, _k12 as int), self.market.factor == m1.factor, self.market.ticks@ == m1.ticks@, decreases 4 - _k12,
 //@ after .apply_delta_to_claimable_funding_amount_per_size( :: proof { lemma_walk_step(m1, m2, self.market, report, MATRIX@, _k12 as int - 1, is_long, is_long_collateral); }
-//@ before *self.market.funding_factor_per_second_mut() = :: proof { reveal_with_fuel(cnt, 6); assert(cnt(MATRIX@, 4, true, true) == 1 && cnt(MATRIX@, 4, true, false) == 1 && cnt(MATRIX@, 4, false, true) == 1 && cnt(MATRIX@, 4, false, false) == 1); lemma_once(m1, self.market, report, MATRIX@); }
+//@ before Ok(report) :: proof { reveal_with_fuel(cnt, 6); assert(cnt(MATRIX@, 4, true, true) == 1 && cnt(MATRIX@, 4, true, false) == 1 && cnt(MATRIX@, 4, false, true) == 1 && cnt(MATRIX@, 4, false, false) == 1); lemma_once(m1, self.market, report, MATRIX@); }
     #[verifier::loop_isolation(false)]
     fn execute(&mut self) -> (r: Result<UpdateFundingReport, E>)
         ensures
